@@ -164,6 +164,12 @@ def _oblige_inv(ex, key, what, st, lc, inv):
         st = st.copy(); st.assume(*hyp)
     for label, f in entries:
         if label.startswith('assume:'): continue
+        if label.startswith('qf:'):
+            # quantifier-free instance of an invariant clause: decided from the quantifier-free path facts alone (see Exec.emit)
+            from .engine import _has_quant_cached
+            slim = st.copy(); slim.pc = [h for h in st.pc if not _has_quant_cached(h)]
+            ex.oblige(f'loop[{key}]/{what}:{label[3:]}', slim, f, kind='loop')
+            continue
         ex.oblige(f'loop[{key}]/{what}:{label}', st, f, kind='loop')
 
 
